@@ -872,6 +872,48 @@ func (x *gen) cancellationOp() {
 	x.emit("charinfo r=%s T=1 fr=1:1", r.enc())
 }
 
+// chunkedOps: generations on a source that answers in short reads (C09 says the choices are the
+// same; the uniformity properties C02, C04, C06 are claims about those choices, so they are
+// exercised on such a source too).
+func (x *gen) chunkedOps(n int) {
+	for i := 0; i < n; i++ {
+		x.chargenOp(x.recipe(x.g.intn(4)), fmt.Sprintf(" chunk=%d", x.g.next()%1000000))
+		x.wlgenOp("wlgen", fmt.Sprintf(" chunk=%d", x.g.next()%1000000))
+	}
+}
+
+// budgetBoundaryOps: the exported retry budget at its boundaries — MaxTrials 0 (nothing can be
+// attempted: every recipe is refused, and nothing else happens), MaxTrials far above any built-in
+// ceiling (the loop and the pre-flight must go by the same number), and bounded draws made while
+// the budget is tiny (a draw redraws until a word is accepted, whatever MaxTrials says).
+func (x *gen) budgetBoundaryOps() {
+	for _, r := range []string{"7/15/0/16/_/-/_", "4/7/4/0/_/-/_", "3/0/0/0/97.98.99/97/_"} {
+		x.emit("charinfo r=%s T=0 fr=1:1000000000", r)
+		x.emit("chargen r=%s T=0 fr=1:1000000000 tape=1.2.3.4.5.6.7.8.9.10.11.12", r)
+	}
+	x.emit("wlgen words=%s titles=%s L=3 sep=preset:d1 cap=%s T=0 fr=1:1000000000 tape=1.2.3.4.5.6.7.8.9.10", encList([]string{"uno", "dos"}), encList([]string{"Uno", "Dos"}), encCps("none"))
+	// 20,000 permitted attempts, success chance 1/50 per attempt, a stream of 10,500 failing
+	// candidates: the generator must still be drawing when the stream ends
+	var ac []rune
+	for i := 0; i < 49; i++ {
+		ac = append(ac, rune(0x400+i))
+	}
+	big := recipeSpec{L: 1, ac: string(ac), rs: []string{"\u0431"}}
+	tape := make([]uint32, 10500)
+	for i := range tape {
+		tape[i] = uint32(1 + i%40)
+	}
+	x.emit("chargen r=%s T=20000 fr=1:1000000000 tape=%s", big.enc(), encWords(tape))
+	// bounded draws under a tiny budget: several rejected words in a row, then an accepted one
+	for _, T := range []int{0, 1, 2} {
+		for _, n := range []uint32{3, 5, 10, 26, 18328, 0xC0000000} {
+			limit := uint32(0xFFFFFFFF - 0xFFFFFFFF%uint64(n))
+			t := []uint32{limit, 0xFFFFFFFF, limit + (0xFFFFFFFF-limit)/2, 0xFFFFFFFF, x.g.u32() % limit}
+			x.emit("draw n=%d T=%d tape=%s", n, T, encWords(t))
+		}
+	}
+}
+
 func (x *gen) wlnewOp(reps int) {
 	words := x.wordList(true)
 	if x.g.chance(3) {
@@ -883,7 +925,7 @@ func (x *gen) wlnewOp(reps int) {
 // ---------- tokens
 
 var tokPool = []string{"a", "b", "-", " ", "correct", "horse", "é", "ü", "日本", "😀", "ab", "x→y", "0", "12", "été", "𝄞𝄞",
-	"\uFFFD", "caf\uFFFD", "\u00a0", "\u2028", "%s"}
+	"\uFFFD", "caf\uFFFD", "\u00a0", "\u2028", "%s", "\n", "\r", "end\r", "line\n", "\r\n", " ", "tab\t"}
 
 func (x *gen) tokValue() string {
 	switch c := x.g.intn(100); {
@@ -1565,12 +1607,14 @@ func generate(prop, tier string, seed uint64) []string {
 	}
 	switch prop {
 	case "C01":
+		x.budgetBoundaryOps()
 		rep(3000, x.drawOp)
 		rep(400, x.sourceOp)
 		// the draws as the generators make them: characters, words, the 'one' position, coin flips
 		rep(40, func() { x.chargenOp(x.recipe(1), "") })
 		rep(60, func() { x.longCapsOp() })
 	case "C02":
+		x.chunkedOps(15)
 		for i := 0; i < 10*scale/scale; i++ {
 			x.manySetsOp()
 		}
@@ -1589,6 +1633,8 @@ func generate(prop, tier string, seed uint64) []string {
 		// every flag combination of one field against random others (a seed-permuted slice)
 		rep(300, func() { x.charinfoOp(x.recipe(2)) })
 	case "C04":
+		x.chunkedOps(10)
+		x.budgetBoundaryOps()
 		rep(40, x.longCapsOp)
 		rep(25, func() { x.wlCellOps(1200) })
 		rep(700, func() { x.wlgenOp("wlgen", "") })
@@ -1596,6 +1642,7 @@ func generate(prop, tier string, seed uint64) []string {
 		rep(1500, func() { x.wlgenOp("wlgen", "") })
 		x.emit("wlgen words=_ titles=_ L=3 sep=char:_ cap=%s tape=0.0.0", encCps("none")) // D8
 	case "C06":
+		x.chunkedOps(15)
 		rep(400, func() { x.chargenOp(x.recipe(x.g.intn(4)), "") })
 		rep(400, func() { x.charinfoOp(x.recipe(x.g.intn(4))) })
 		rep(500, func() { x.wlgenOp("wlgen", "") })
@@ -1624,6 +1671,9 @@ func generate(prop, tier string, seed uint64) []string {
 		rep(500, func() { x.wlnewOp(8 * scale) })
 		rep(500, func() { x.wlgenOp("wlent", "") })
 	case "C09":
+		// calls with another complete call made in the middle of them: the bytes a call was given are its own
+		rep(30, func() { x.chargenOp(x.recipe(x.g.intn(4)), fmt.Sprintf(" reenter=%d", 1+x.g.intn(6))) })
+		rep(30, func() { x.wlgenOp("wlgen", fmt.Sprintf(" reenter=%d", 1+x.g.intn(6))) })
 		rep(40, x.faultOps)
 		rep(600, x.sourceOp)
 	case "C10":
@@ -1645,6 +1695,7 @@ func generate(prop, tier string, seed uint64) []string {
 		rep(3000, x.tokenizeOp)
 		rep(800, x.explodeOp)
 	case "C13":
+		x.budgetBoundaryOps()
 		rep(700, func() { x.chargenOp(x.recipe(x.g.intn(4)), "") })
 		rep(500, func() { x.charinfoOp(x.recipe(x.g.intn(4))) })
 		rep(300, func() { x.wlgenOp("wlgen", "") })
@@ -1659,6 +1710,7 @@ func generate(prop, tier string, seed uint64) []string {
 		rep(200, func() { x.wlgenOp("wlgen", "") })
 		x.presetCells()
 	case "C15":
+		x.budgetBoundaryOps()
 		rep(8, x.collisionPairOps)
 		rep(6, x.sepHistoryOps)
 		// calls with another complete call made in the middle of them
@@ -1676,6 +1728,15 @@ func generate(prop, tier string, seed uint64) []string {
 		x.emit("charinfo r=7/15/0/16/_/-/_")
 		x.namedFlagBlock()
 		x.zeroToleranceBlock()
+		// every preset on a source that fails at its own read: no value other than the documented
+		// ones ever comes out — a failed read is a panic, not an empty separator
+		for _, sp := range []string{"preset:d1", "preset:d2", "preset:dna1", "preset:dna2", "preset:sym", "preset:ds"} {
+			for cut := 1; cut <= 3; cut++ {
+				t := []uint32{0, 1, 0, 1, 0, 1}[:cut]
+				x.emit("wlgen words=%s titles=%s L=3 sep=%s cap=%s tape=%s", encList([]string{"uno", "dos"}), encList([]string{"Uno", "Dos"}), sp, encCps("none"), encWords(t))
+				x.emit("wlent words=%s titles=%s L=3 sep=%s cap=%s tape=_", encList([]string{"uno", "dos"}), encList([]string{"Uno", "Dos"}), sp, encCps("none"))
+			}
+		}
 		for i := 0; i < 4; i++ {
 			x.emit("newcr L=%d", 1+x.g.intn(40))
 			x.emit("newwl L=%d", 1+x.g.intn(12))
